@@ -718,6 +718,9 @@ class FX:
                             self.emit('alias', y, [y, tv])
         elif isinstance(t, ast.Attribute):
             if isinstance(t.value, ast.Name) and t.value.id == self.me and self.me is not None:
+                if t.attr in TB.ARRAY_HEADER_ATTRS and self.cinfo.is_array:
+                    self.emit('inplace', self.me)
+                    return
                 if t.attr in self.cinfo.method_names:
                     # property setter
                     m = self.pkg.funcs.get(f'{self.pkg.lookup_method(self.f.cls, t.attr).qual}.setter')
@@ -726,6 +729,12 @@ class FX:
                     self.call_pkg([m], [Val(frozenset([self.me]), 'obj', None, self.f.cls), v], {}, receiver=self.me)
                     return
                 self.bind(f'{self.me}.{t.attr}', v)
+            elif t.attr in TB.ARRAY_HEADER_ATTRS:
+                # x.shape = ... / x.dtype = ... / x.strides = ... / x.flags.writeable = ...: the caller's array object changes
+                base = t.value.value if (isinstance(t.value, ast.Attribute) and t.value.attr == 'flags') else t.value
+                b = self.ev(base)
+                if b.al:
+                    self.emit('inplace', self.as_var(b))
             else:
                 b = self.ev(t.value)
                 if b.al and v.al:
